@@ -46,6 +46,7 @@ REMOTE_MENU = {
     "iws10": [(IWS, 10)], "iws70000": [(IWS, 70000)], "mfs20000": [(MFS, 20000)], "mcs1": [(MCS, 1)], "mcs0": [(MCS, 0)],
     "hts0": [(HTS, 0)], "unknown": [(0x99, 5)], "iws10+mfs20000": [(IWS, 10), (MFS, 20000)], "empty": [],
     "iws10+iws20": [(IWS, 10), (IWS, 20)],
+    "mfs16384": [(MFS, 16384)],          # back to the default after mfs20000: existing streams must follow both changes
 }
 ALPHABET = "update_settings: %s; received SETTINGS: %s; peer SETTINGS ACK; probes for IWS/MFS/MCS/MHLS/ENABLE_PUSH on both sides" % (
     sorted(LOCAL_MENU), sorted(REMOTE_MENU))
@@ -342,6 +343,17 @@ class Spec:
                 if w != min(65535, rem[IWS]):
                     bad("remote-iws-probe", "after %s: send window of existing stream %d (nothing sent on it) is %d, peer's INITIAL_WINDOW_SIZE is %d" % (
                         lab, sid, w, rem[IWS]), probe="existing-stream")
+            # a header block larger than the peer's MAX_FRAME_SIZE on a stream that was there before the setting changed
+            c = pickle.loads(blob)
+            o = H.call(c, "send_headers", 1, H.ni([(b"x-big", b"Z" * (rem[MFS] + 200))]), end_stream=True)
+            if o.kind != "ok":
+                bad("remote-mfs-probe", "after %s: large trailers on existing stream 1 refused: %s %s" % (lab, o.brief(), o.msg), probe="existing-stream",
+                    expected="accept")
+            else:
+                over = [f for f in o.frames if f.type in (wire.HEADERS, wire.CONTINUATION) and len(f.f["block"]) > rem[MFS]]
+                if over or len(o.frames) < 2:
+                    bad("remote-mfs-probe", "after %s: trailers of %d bytes on existing stream 1 sent as %s, peer's MAX_FRAME_SIZE is %d" % (
+                        lab, rem[MFS] + 200, o.brief(), rem[MFS]), probe="existing-stream", expected="split")
             return
 
         def fresh():
@@ -449,6 +461,18 @@ class Spec:
                 pb("local-push-probe", "PUSH_PROMISE rejected although ENABLE_PUSH=1 is in force: %s" % o.brief(), expected="accept")
             if cur[EP] == 0 and not (o.kind == "raise" and o.is_proto):
                 pb("local-push-probe", "PUSH_PROMISE accepted although ENABLE_PUSH=0 is in force: %s" % o.brief(), expected="reject")
+            if cur[EP] == 0:
+                # the setting binds whatever has become of the parent stream: reset by us, and reset and already forgotten
+                for variant in ("parent-reset", "parent-reset-and-forgotten"):
+                    c = fresh()
+                    H.call(c, "send_headers", 1, H.ni(H.REQ_POST))
+                    H.call(c, "reset_stream", 1)
+                    if variant.endswith("forgotten"):
+                        c.open_outbound_streams          # reading the counter sweeps closed streams out of the table
+                    o = H.recv(c, wire.push_promise(1, 2, psb(H.REQ)).serialize())
+                    if not (o.kind == "raise" and o.is_proto):
+                        pb("local-push-probe", "PUSH_PROMISE on a %s stream accepted / refused as a stream although ENABLE_PUSH=0 is in force: %s" % (
+                            variant, o.brief()), expected="reject", variant=variant)
         # ---- the peer's settings are in force for the very next action
         rmfs = rem[MFS]
         riws = rem[IWS]
